@@ -6,7 +6,7 @@ CONSTANTS QCap = 2 MaxPend = 1 MaxOps = 5
           NoInboundFilter = FALSE NoNullCheck = FALSE AnyoneOpens = FALSE
           RepIds = {1, 4, 7}
           TrackHistory = FALSE FlowCache = "none" HostIps = {"x"} HostPorts = {1}
-          StaleVerdict = "none" HopFollowsPeer = FALSE
+          StaleVerdict = "none" HopFollowsPeer = FALSE VerdictMemo = "none"
           FlagChoices = {{}, {"BT"}, {"IPV8", "RELAY"}} SignedSrcs = {"prev", "other"}
           SrcSet = {"prev", "other"} DkSet = {"v4", "v6", "dom4"}
 INVARIANT TypeOK
@@ -15,3 +15,4 @@ INVARIANT NeverToNull
 INVARIANT OpenedOnlyByPrevHop
 INVARIANT EmitOnlyWhenOpen
 INVARIANT QueueClean
+INVARIANT VerdictByOwnShape
